@@ -23,7 +23,7 @@ CLAIMS.update({
     ),
     "C02": dict(
         technique="registry/table agreement, signature agreement between sibling implementations, repository-wide call-binds check over the resolved call graph, flow-sensitive may-dependence analysis (every option influences every return)",
-        text="Decides structural necessary conditions: (AXIS-FAMILY) in tensordot (core, einsum) and _validate_contraction_modes an axis number of one tensor is only ever combined (indexing, membership, negative-axis normalisation, transpose) with the shape / ndim / axis lists of the same tensor, and the validator returns (axes of tensor 1, axes of tensor 2) -- a type rule that holds for all orders and modes; (HOMOGENEITY) khatri_rao, kronecker, multi_mode_dot and mode_dot in both backends, and MTTKRP in its three variants, are homogeneous of degree 1 in the tensor, in the weights when given and in every factor but the skipped one (dimensional analysis with list lengths linear in the number of factors and affine loop acceleration); (SKIP-INDEX) the skip_matrix filter of khatri_rao/kronecker/sample_khatri_rao runs on the list as given; the dispatch table and both backends' registrations agree and resolve to functions; core and einsum siblings are call-compatible; every resolved call binds to its callee's signature; every option (weights, mask, skip_matrix, reverse, transpose, skip, modes, n_modes, batched_modes, cp_tensor weights) influences every return path of every operation. It does NOT decide that an einsum equation or reshape chain equals the textbook formula.",
+        text="Decides structural necessary conditions: (BROADCAST-ARITY) in core outer / batched_outer the two reshape targets of every broadcast product have the same number of entries in every loop iteration (affine-relation / Karr analysis of the shape bookkeeping); (AXIS-FAMILY) in tensordot (core, einsum) and _validate_contraction_modes an axis number of one tensor is only ever combined (indexing, membership, negative-axis normalisation, transpose) with the shape / ndim / axis lists of the same tensor, and the validator returns (axes of tensor 1, axes of tensor 2) -- a type rule that holds for all orders and modes; (HOMOGENEITY) khatri_rao, kronecker, multi_mode_dot and mode_dot in both backends, and MTTKRP in its three variants, are homogeneous of degree 1 in the tensor, in the weights when given and in every factor but the skipped one (dimensional analysis with list lengths linear in the number of factors and affine loop acceleration); (SKIP-INDEX) the skip_matrix filter of khatri_rao/kronecker/sample_khatri_rao runs on the list as given; the dispatch table and both backends' registrations agree and resolve to functions; core and einsum siblings are call-compatible; every resolved call binds to its callee's signature; every option (weights, mask, skip_matrix, reverse, transpose, skip, modes, n_modes, batched_modes, cp_tensor weights) influences every return path of every operation. It does NOT decide that an einsum equation or reshape chain equals the textbook formula.",
         note="Trusted: may-dependence is an over-approximation (can miss, cannot over-report); user callables and decorated functions with unknown decorators are skipped.",
         design="DESIGN.md §3 C02",
     ),
